@@ -14,7 +14,7 @@ from auditsim.log import Outcome, same, tight
 
 PROP = "C10"
 TIERS = {
-    "quick": {"runs": 9000, "chunk": 100, "max_cards": 40},
+    "quick": {"runs": 15000, "chunk": 100, "max_cards": 40},
     "thorough": {"budget_s": 900, "chunk": 100, "max_cards": 150},
 }
 RULE = ("one run = one seeded election (cards, styles, CVRs with lost cards, pooled batches), one fault plan for the "
@@ -40,7 +40,7 @@ COMPONENTS = {
 }
 PROBES = ["threshold moved between rounds", "card skipped then taken later", "continue round", "redraw round",
           "assertion confirmed in an early round", "sample grew", "phantom CVR sampled", "phantom batch hit",
-          "rebuilt state"]
+          "rebuilt state", "risk checked after every single observation"]
 
 
 def generate(rng, tier):
@@ -52,6 +52,7 @@ def generate(rng, tier):
     if case["margins_via_tally"]:
         for r, rnd in enumerate(case["rounds"]):
             rnd["retally"] = bool(r > 0 and rng.chance(0.4))
+    case["finer_rounds"] = rng.chance(0.15)
     if len(case["rounds"]) < 2:
         r0 = case["rounds"][0]
         r1 = copy.deepcopy(r0)
@@ -113,8 +114,49 @@ class Oracle:
                 self.grew += 1
                 out.probe("sample grew")
 
+    def finer_rounds(self, run, r):
+        """any cut of the same data into more rounds is also an audit history: the measured risk after the first n
+        observations must be non-increasing in n.  Run when the recorded history shows that earlier entries moved
+        (cheap trigger), and for a fixed share of short histories."""
+        import numpy as np
+        out = self.out
+        data = run.data_hist[r]
+        for (cid, key), (d, u) in sorted(data.items()):
+            asn = run.contests[cid].assertions[key]
+            if len(d) < 2 or len(d) > 80:
+                continue
+            moved = False
+            if r > 0 and (cid, key) in self.hist_prev:
+                h0 = self.hist_prev[(cid, key)]
+                h1 = [float(v) for v in asn.p_history]
+                if len(h1) >= len(h0) and any(not tight(a, b) for a, b in zip(h0[:-1], h1)):
+                    moved = True
+                    out.probe("earlier history entries moved between rounds")
+            if not (moved or run.case.get("finer_rounds")):
+                continue
+            out.probe("risk checked after every single observation")
+            prev = None
+            for n in range(1, len(d) + 1):
+                try:
+                    with W.quiet():
+                        p = float(W.clone_test(run.ns, asn.test, u).test(np.array(d[:n]))[0])
+                except Exception:
+                    break
+                pe = 1.0 if p != p else p
+                if prev is not None and not (pe <= prev * (1 + 1e-12) + 1e-300):
+                    out.violate("C10.c", f"finer/{run.world['contests'][cid]['test']}",
+                                f"assertion {(cid, key)}: measured risk after {n - 1} observations {prev!r}, after {n} observations "
+                                f"{p!r} (same data, one more card)")
+                    break
+                prev = pe
+
     def after_pvalues(self, run, r, p_max, done):
         out = self.out
+        if not hasattr(self, "hist_prev"):
+            self.hist_prev = {}
+        self.finer_rounds(run, r)
+        self.hist_prev = {(cid, key): [float(v) for v in asn.p_history] for cid, con in run.contests.items()
+                          for key, asn in con.assertions.items()}
         if r == 0:
             return
         variant = run.case["rounds"][r]["variant"]
